@@ -5,6 +5,10 @@ HERE = os.path.dirname(os.path.dirname(os.path.abspath(__file__)))
 ALL = ["C%02d" % i for i in range(1, 21)]
 # id -> (technique, level text, level note, design ref)
 CHECKS = {
+ "C11": ("bounded-exhaustive enumeration of real sessions over value pools: all 512 permission values on files and directories, boundary mtimes, link targets, device numbers, owners x every preserve-option subset x 5 arrangements x prior destination states; non-root workers for read-only directory trees",
+         "perms 0000..0777 on files and directories x 6 option sets x 5 arrangements x 3 prior states; 10 boundary mtimes (pre-1970, sub-second, 2^31-1, 'just now'), 8 link targets up to 4095 bytes, 16 rdevs x {chr,blk}, fifo, socket, 4 owners x all 64 subsets of {-p,-t,-l,-D,-o,-g} x 5 arrangements x 3 prior states; uid-65534 workers receive nested directories lacking owner write permission (5x5x2 mode combinations); every destination entry is lstat-compared with the source under the property's per-option rules",
+         "runs as root on tmpfs for owner/device cases, as uid 65534 for the read-only-directory cases; id mapping by name across hosts is not demanded",
+         "DESIGN.md §5 C11"),
  "C10": ("bounded-exhaustive enumeration of real dry-run sessions: every-type/every-situation tree pair x all option subsets x 5 arrangements, and all 15 625 pairs of small trees; full before/after snapshot comparison plus wire tap",
          "every subset of {-l,-p,-t,-g,-o,-D,-c,-I} (+--delete/--devices/--specials) with -rn in all arrangements on a tree pair containing each of 7 entry types in each of {missing, different, same, wrong type, metadata-only difference} plus extraneous entries, and all pairs of trees over 3 names x 5 kinds; the destination snapshot (types, bytes, mode, ns mtime, targets, rdev, owner) must be identical, the session must succeed, and the decoded stream must carry no literal bytes",
          "runs as root on tmpfs; atime/ctime not compared; the local arrangement's wire is not tapped (in-process pipes)",
